@@ -386,6 +386,17 @@ def run(chk):
         (r"^emit_file::ActiveFile::write_event$", "assert:overflow:Add"): (2, "file size accounting; a file cannot exceed usize bytes before the size limit rolls it"),
     }, "the record writer and batch cursor have no unaccounted panic-capable site")
     common.arg_agreement_rule(chk, P, "C10", [("emit_file", None)], 5)
+    common.results_inspected_rule(
+        chk, P, "C10.R9:results-inspected", "no filesystem or formatting failure in the file emitter is silently dropped",
+        lambda b: b.crate == "emit_file" and "/tests" not in b.file and "::tests::" not in b.key,
+        {(r"Worker::on_batch(::\{closure#\d+\})*$", "read"):
+             "a failed directory listing is counted (file_set_read_failed) and warned about inside the map_err; the batch goes on with an "
+             "empty set, creation is exclusive so nothing is overwritten",
+         (r"Worker::on_batch(::\{closure#\d+\})*$", "map_err"): "same expression as the row above",
+         (r"StdFilesystem as emit_file::Filesystem>::sync_parent$", "sync_all"):
+             "fsync on a directory handle is refused by some filesystems (EINVAL); the code deliberately ignores its outcome below the "
+             "Filesystem trait, which is where C10's fault model injects faults (open(parent)? is propagated)"},
+        120)
     # a failed batch is written again only if the channel's retry loop hands the remainder back: the retry machinery of the channel is part of this property's mechanism
     from . import batcher
     batcher.bounded_retry(chk, P, "C10.batcher")
